@@ -107,7 +107,7 @@ impl Monitor for C20 {
             // shapes (squares in every spelling, negations, calls) with values whose arithmetic rounds or
             // overflows - a context that looks at the shape of its operand instead of its value is caught
             // (seeded change C20-r9: sqrt of a sum of two explicit squares computed by hypot)
-            for (c, e) in shape_family(ev) {
+            for (c, e) in shape_family(ev).into_iter().chain(repeated_operand_family(ev)) {
                 if !c.contains("{h}") || c == "{h}" || !ctx.mine() {
                     continue;
                 }
